@@ -176,3 +176,20 @@ def write_once_and_close(stream, data):
     """a caller that hands the whole payload to write() at once"""
     stream.write(data)
     stream.close()
+
+
+def download_then_upload(client, index, subindex, data, size):
+    """a complete write of one object followed by a complete read of it through raw streams"""
+    from canopen.sdo.client import WritableStream, ReadableStream
+    ws = WritableStream(client, index, subindex, size, False)
+    download_in_chunks(ws, data)
+    rs = ReadableStream(client, index, subindex)
+    return upload_all(rs)
+
+
+def write_once_then_upload(client, index, subindex, data, size):
+    from canopen.sdo.client import WritableStream, ReadableStream
+    ws = WritableStream(client, index, subindex, size, False)
+    write_once_and_close(ws, data)
+    rs = ReadableStream(client, index, subindex)
+    return upload_all(rs)
